@@ -86,6 +86,10 @@ def gen_recipe(rng):
         if rng.random() < 0.25:
             m["lib"] = {"kind": rng.choice(["syncfifo", "asyncfifo", "ffsync", "pulse"]),
                         "d1": rng.choice(doms), "d2": rng.choice(doms), "a": rng.choice(readable)}
+        if depth > 0 and rng.random() < 0.08:
+            # an elaboratable that owns a ClockDomain object (created once, assigned with `m.domains.<name> = cd` in elaborate),
+            # wrapped in a DomainRenamer of that domain: the guide says renaming does not mutate the elaboratable
+            m["own_cd"] = {"name": rng.choice(doms), "to": rng.choice(["video", "pix"])}
         if rng.random() < 0.2:
             # a black-box instance clocked from a (usually implicitly created) domain
             m["inst"] = {"dom": rng.choice(doms), "a": rng.choice(readable)}
@@ -156,6 +160,23 @@ def build_recipe(recipe):
                 m.submodules.p = p
                 m.d.comb += p.i.eq(a[0])
                 lib_ports.append(p.o)
+        oc = spec.get("own_cd")
+        if oc:
+            from amaranth.hdl import ClockDomain, DomainRenamer
+
+            class Own(Elaboratable):
+                def __init__(self):
+                    self.cd = ClockDomain(oc["name"])
+                    self.q = Signal(name="own_q")
+
+                def elaborate(self, platform):
+                    mm = Module()
+                    setattr(mm.domains, oc["name"], self.cd)
+                    mm.d[oc["name"]] += self.q.eq(~self.q)
+                    return mm
+            own = Own()
+            m.submodules.own = DomainRenamer({oc["name"]: oc["to"]})(own)
+            lib_ports.append(own.q)
         ins = spec.get("inst")
         if ins:
             from amaranth.hdl import Instance, ClockSignal, ResetSignal
@@ -197,7 +218,10 @@ def convert_digest(recipe, again=False):
     text = rtlil.convert(top, ports=ports)
     if again:
         # the very same object once more: elaboration must not leave anything behind that changes the result
-        text2 = rtlil.convert(top, ports=ports)
+        try:
+            text2 = rtlil.convert(top, ports=ports)
+        except Exception as e:
+            return "SECOND-CONVERSION-FAILED:" + type(e).__name__, text
         if text2 != text:
             return "SAME-OBJECT-DIFFERS", text
         if before != [dict(p.attrs) for p in ports if hasattr(p, "attrs")]:
@@ -341,6 +365,9 @@ def run_hashseed(case, res, dig, stats):
             raise Violation("rtlil_differs_across_hash_seeds", i,
                             {"recipe_index": i, "digests": {str(k): v[:16] for k, v in ds.items()},
                              "implicit_domains": count_implicit(r)})
+        if inproc1[i].startswith("SECOND-CONVERSION-FAILED:"):
+            raise Violation("second_conversion_of_same_object_fails", i, {"recipe_index": i, "type": inproc1[i].split(":", 1)[1],
+                                                                          "own_clock_domain_under_renamer": '"own_cd": {' in json.dumps(r)})
         if inproc1[i] == "SAME-OBJECT-DIFFERS":
             raise Violation("rtlil_differs_when_same_object_is_converted_twice", i, {"recipe_index": i})
         if inproc1[i] != inproc2[i]:
@@ -805,6 +832,9 @@ def signature(case, violation):
     if violation["oracle"] == "exception":
         sig["exc"] = violation["detail"].get("type")
         sig["where"] = violation["detail"].get("where")
+    if violation["oracle"] == "second_conversion_of_same_object_fails":
+        sig["exc"] = violation["detail"].get("type")
+        sig["own_clock_domain_under_renamer"] = violation["detail"].get("own_clock_domain_under_renamer")
     return sig
 
 
